@@ -410,11 +410,12 @@ class World:
             for l in self.gtf_lines(**kw):
                 f.write(l + "\n")
 
-    def write_bam(self, path, reads=None, file_idx=None):
+    def write_bam(self, path, reads=None, file_idx=None, chrom_order=None):
+        """chrom_order: order of the @SQ header lines (the records are sorted against that header)"""
         reads = self.reads if reads is None else reads
         if file_idx is not None:
             reads = [r for r in reads if r.file_idx == file_idx]
-        write_bam(path, [(c, self.chrom_len(c)) for c in self.chrom_order], reads)
+        write_bam(path, [(c, self.chrom_len(c)) for c in (chrom_order or self.chrom_order)], reads)
 
     def write_truth(self, path):
         with open(path, "w") as f:
